@@ -260,7 +260,7 @@ def _variants(v, family):
     return [(a, payload(v, a), [(d, '==', ia)]), (b, payload(v, b) if family == RES else None, [(d, '==', ib)])]
 
 
-def hof(family, on, rebuild):
+def hof(family, on, rebuild, structural=False):
     """higher-order helper: apply the callback to the payload of variant `on`, pass the other through.
     rebuild(variant, new_payload) -> value"""
     def f(eng, st, fr, args, fn, site):
@@ -269,7 +269,11 @@ def hof(family, on, rebuild):
             if var == on:
                 alts = eng.apply_fn(st, fr, args[1], [pay] if pay is not None else [])
                 if alts is None:
-                    return None
+                    if not structural:
+                        return None
+                    # the callback is not available (std::mem::drop, an external fn): its result is opaque, but which
+                    # variant comes out is still determined by the input
+                    alts = [(T('applied', args[1] if args[1][0] != 'fn' else ('sym', 'fn:' + str(args[1][1].get('path'))), pay), [], None)]
                 for v, c2, eff in alts:
                     out.append((rebuild(var, v), conds + c2, eff))
             else:
@@ -296,6 +300,34 @@ def _rb_unwrap_or_else(on):
     def rb(var, v, keep=None):
         return v if var == on and keep is None and v is not None else keep
     return rb
+
+
+def bool_then_some(eng, st, fr, args, fn, site):
+    b, v = args[0], args[1]
+    if is_int_const(b):
+        return ('agg', OPT, 'Some', (v,)) if b[1] else ('agg', OPT, 'None', ())
+    return [(('agg', OPT, 'Some', (v,)), [(b, '==', 1)]), (('agg', OPT, 'None', ()), [(b, '==', 0)])]
+
+
+def bool_then(eng, st, fr, args, fn, site):
+    b = args[0]
+    out = []
+    if not (is_int_const(b) and not b[1]):
+        alts = eng.apply_fn(st, fr, args[1], [])
+        if alts is None:
+            return None
+        for v, c2, eff in alts:
+            out.append((('agg', OPT, 'Some', (v,)), ([] if is_int_const(b) else [(b, '==', 1)]) + c2, eff))
+    if not (is_int_const(b) and b[1]):
+        out.append((('agg', OPT, 'None', ()), [] if is_int_const(b) else [(b, '==', 0)], None))
+    return out
+
+
+def next_multiple_of(eng, st, fr, args, fn, site):
+    a, b = args[0], args[1]
+    if is_int_const(a) and is_int_const(b) and b[1] > 0:
+        return C(((a[1] + b[1] - 1) // b[1]) * b[1], a[2])
+    return None
 
 
 def unwrap_or(family):
@@ -618,8 +650,13 @@ SUMMARIES = {
     'std::mem::swap': mem_swap,
     'std::option::Option::<T>::take': opt_take,
     'std::option::Option::<T>::replace': opt_replace,
-    'std::result::Result::<T, E>::map_err': hof(RES, 'Err', _rb_map_err),
-    'std::result::Result::<T, E>::map': hof(RES, 'Ok', _rb_map_res),
+    'std::result::Result::<T, E>::map_err': hof(RES, 'Err', _rb_map_err, structural=True),
+    'std::result::Result::<T, E>::map': hof(RES, 'Ok', _rb_map_res, structural=True),
+    'std::bool::<impl bool>::then_some': bool_then_some,
+    'std::bool::<impl bool>::then': bool_then,
+    'std::num::<impl usize>::next_multiple_of': next_multiple_of,
+    'std::num::<impl u32>::next_multiple_of': next_multiple_of,
+    'std::num::<impl u64>::next_multiple_of': next_multiple_of,
     'std::result::Result::<T, E>::and_then': hof(RES, 'Ok', _rb_and_then_res),
     'std::option::Option::<T>::and_then': hof(OPT, 'Some', _rb_and_then_opt),
     'std::result::Result::<T, E>::or_else': hof(RES, 'Err', _rb_or_else_res),
@@ -627,8 +664,8 @@ SUMMARIES = {
     'std::option::Option::<T>::unwrap_or_else': hof(OPT, 'None', _rb_unwrap_or_else('None')),
     'std::result::Result::<T, E>::unwrap_or': unwrap_or(RES),
     'std::option::Option::<T>::unwrap_or': unwrap_or(OPT),
-    'std::option::Option::<T>::map': hof(OPT, 'Some', _rb_map_opt),
-    'std::option::Option::<T>::ok_or_else': hof(OPT, 'None', _rb_ok_or_else),
+    'std::option::Option::<T>::map': hof(OPT, 'Some', _rb_map_opt, structural=True),
+    'std::option::Option::<T>::ok_or_else': hof(OPT, 'None', _rb_ok_or_else, structural=True),
     'std::option::Option::<T>::ok_or': ok_or,
     'std::result::Result::<T, E>::ok': res_ok,
     'std::option::Option::<T>::as_ref': opt_as_ref,
